@@ -74,7 +74,7 @@ Proof.
   - intro H; injection H as <-. exists []. split; reflexivity.
   - destruct (elaborate s lo) as [o|]; [|discriminate].
     destruct (if strict then vstep s o else step s o) as [s1|] eqn:E; [|discriminate].
-    destruct (forallb (check_obs s1 o) bs); [|discriminate]. intro H. destruct (IH _ _ _ H) as [ops [R V]].
+    destruct (forallb (check_obs s s1 o) bs); [|discriminate]. intro H. destruct (IH _ _ _ H) as [ops [R V]].
     exists (o :: ops). cbn [run vrun]. destruct strict.
     + rewrite (vstep_step _ _ _ E), E. split; [exact R | exact V].
     + rewrite E. split; [exact R | discriminate].
